@@ -52,6 +52,8 @@ ASSUMPTIONS = [
     "count unless the peer's table holds the same id pack (both ends in one process and the same object lent both ways, or "
     "an address coincidence) — the key-injectivity assumption above; isinstance() between proxies is not in the histories "
     "(observed by the C07 builder on two honest ends)",
+    "a message that `brine.load` cannot decode at the receiver: the receiver does not know which references it held and "
+    "cannot release them (outside; the owner keeps them until close)",
     "`Connection._last_traceback` (the debugging aid that keeps the frames, hence the locals, of the last exception a handler "
     "or a failed reply raised, until the next one) is not counted as 'the connection references the object': the harness "
     "clears it before liveness checks",
@@ -71,7 +73,11 @@ EXPLANATION = ("Theorems: the counting invariant (stored+1 = references in fligh
                "`_unbox` (generated constant localRefsResolvedFirst), onePass_order_counterexample for the order before e881f31. "
                "Messages boxed and then refused by the serializer (sendFail / fetchBad): preserved because the registrations "
                "are taken back (generated constant failedSendReleases, failed_send_is_released), "
-               "unreleased_failed_send_leaks is the counterexample for code that does not.")
+               "unreleased_failed_send_leaks is the counterexample for code that does not. Messages the receiver cannot unbox "
+               "(splitHead j + deliveries; application-level dOfail j): preserved because a release goes out for every reference "
+               "no proxy took over (generated constant failedUnboxReleases), unreleased_failed_unbox_leaks otherwise. The generated "
+               "constants are decided INSIDE the named theorems: tripwires, each with a counterexample theorem for the other "
+               "behaviour (uncounted_reception_leaks for 'found but not counted').")
 
 N_OBJS = 3
 
@@ -95,6 +101,63 @@ def unsendable(kind):
     return _UNSENDABLE[kind]
 
 
+class HarnessLayoutError(BaseException):
+    """rpyc's PRIVATE bookkeeping no longer has the layout this harness reads (`_local_objects._dict`: key -> [object,
+    stored count]; `_proxy_cache._dict`: key -> weak reference; a proxy's `____refcount__`).  That is a matter of the
+    harness, not a finding about the property: it is raised through every `except Exception` of the harness and turned into
+    an infrastructure error (exit 2) at the entry points."""
+
+
+def lent_table(conn):
+    """the owner's table: key -> [object, stored count]"""
+    try:
+        d = getattr(getattr(conn, "_local_objects"), "_dict")
+    except AttributeError as ex:
+        raise HarnessLayoutError("Connection. _local_objects . _dict: %s" % ex)
+    if not isinstance(d, dict):
+        raise HarnessLayoutError("Connection. _local_objects . _dict is a %s" % type(d).__name__)
+    for v in d.values():
+        if not (isinstance(v, list) and len(v) == 2 and type(v[1]) is int):
+            raise HarnessLayoutError("a slot of _local_objects is %r, not [object, count]" % (type(v).__name__,))
+        break
+    return d
+
+
+def proxy_table(conn):
+    """the peer's proxy cache: key -> weak reference to the proxy"""
+    try:
+        d = getattr(getattr(conn, "_proxy_cache"), "_dict")
+    except AttributeError as ex:
+        raise HarnessLayoutError("Connection. _proxy_cache . _dict: %s" % ex)
+    if not isinstance(d, dict):
+        raise HarnessLayoutError("Connection. _proxy_cache . _dict is a %s" % type(d).__name__)
+    return d
+
+
+def refcount_of(proxy):
+    """how many references a proxy stands for"""
+    try:
+        n = object.__getattribute__(proxy, "____refcount__")
+    except AttributeError as ex:
+        raise HarnessLayoutError("BaseNetref.____refcount__: %s" % ex)
+    if type(n) is not int:
+        raise HarnessLayoutError("BaseNetref.____refcount__ is a %s" % type(n).__name__)
+    return n
+
+
+def infrastructure(fn):
+    """entry points of the check: a layout problem of the harness leaves as an ordinary exception (run.py: exit 2)"""
+    import functools
+
+    @functools.wraps(fn)
+    def wrapper(*a, **kw):
+        try:
+            return fn(*a, **kw)
+        except HarnessLayoutError as ex:
+            raise RuntimeError("harness layout adapter: %s" % ex)
+    return wrapper
+
+
 class Blocked(Exception):
     """a step of the real code did not come to an end (a request nobody will ever answer)"""
 
@@ -116,6 +179,8 @@ def bounded(fn, seconds=20.0):
     th.join(seconds)
     if th.is_alive():
         return "blocked", None
+    if isinstance(box.get("raised"), HarnessLayoutError):
+        raise box["raised"]
     if "raised" in box:
         return "raised", box["raised"]
     return "ok", box.get("ok")
@@ -358,6 +423,42 @@ class World:
                 if not self.waiting[j][1].expired:
                     self.err.append("set_expiry(0) did not expire the result")
                 return "ok"
+            if kind == "dOfail":
+                # the peer's `_unbox` of the next message fails after j of its references (as when the class of the next
+                # object cannot be inspected or the round trip times out): injected at exactly that point of the real walk
+                if self.closed:
+                    return "closed"
+                head = (self.queue_text("B") or [""])[0].split()
+                if not head or head[0] not in ("req", "reply") or (head[0] == "reply" and head[-1] != "T"):
+                    return "disabled"
+                nrefs = len(head) - (1 if head[0] == "req" else 2)
+                j = o[1]
+                if j >= nrefs:
+                    return "disabled"
+                orig, seen = self.cb._unbox, [0]
+
+                def failing(package, *rest):
+                    if rest and rest[0]:
+                        try:
+                            label = package[0]
+                        except Exception:  # noqa
+                            label = None
+                        if label == c.LABEL_REMOTE_REF:
+                            if seen[0] == j:
+                                raise RuntimeError("the class of this object cannot be inspected")
+                            seen[0] += 1
+                    return orig(package, *rest)
+                self.cb._unbox = failing
+                try:
+                    self.cb.poll()
+                except RuntimeError:
+                    pass
+                finally:
+                    del self.cb._unbox
+                    orig = failing = None
+                self.cb._last_traceback = None
+                self.waiting = [w for w in self.waiting if w[0] in self.cb._request_callbacks]
+                return "unreceived"
             if kind in ("dO", "dP"):
                 conn = self.cb if kind == "dO" else self.ca
                 mark = len(self.net.frames)
@@ -500,20 +601,20 @@ class World:
                         out.append("close")
                     else:
                         out.append("request?%s" % handler)
-                elif msg == c.MSG_REPLY:
-                    out.append("reply")
                 else:
-                    out.append("exc?")
+                    # the peer's answer to a request of the owner, MSG_REPLY or MSG_EXCEPTION (when the peer could not
+                    # unbox the request): either way it carries no reference of the owner's
+                    out.append("reply")
         return out[0]
 
     def live_proxy(self, k):
-        w = self.cb._proxy_cache._dict.get(self.packs[k])
+        w = proxy_table(self.cb).get(self.packs[k])
         return w() if w is not None else None
 
     def snapshot(self, outcome):
         t, p = [], []
         for k in range(self.n):
-            slot = self.ca._local_objects._dict.get(self.packs[k])
+            slot = lent_table(self.ca).get(self.packs[k])
             if slot is None:
                 t.append("-")
             else:
@@ -521,7 +622,7 @@ class World:
                 if id(slot[0]) != self.ids[k]:
                     self.err.append("table slot of object %d holds a different object" % k)
             px = self.live_proxy(k)
-            p.append("-" if px is None else str(px.____refcount__))
+            p.append("-" if px is None else str(refcount_of(px)))
             del px
         if self.closed:
             o = q = []
@@ -600,7 +701,7 @@ class World:
             a = self.alive(k)
             if a is None:
                 continue
-            lent = self.packs[k] in self.ca._local_objects._dict
+            lent = self.packs[k] in lent_table(self.ca)
             if a and not lent:
                 a = self.alive_after_gc(k)
             if a != lent:
@@ -634,8 +735,8 @@ def op_text(o):
         return "back %d %s" % (o[1], "T" if o[2] else "F")
     if kind == "drop":
         return "drop %d" % o[1]
-    if kind == "expire":
-        return "expire %d" % o[1]
+    if kind in ("expire", "dOfail"):
+        return "%s %d" % (kind, o[1])
     if kind == "close":
         return "close"
     return kind
@@ -680,6 +781,9 @@ def random_op(r, w, n):
                 return ["expire", r.choice(fresh)]
             if r.chance(1, 6):
                 return ["expire", len(w.waiting)]
+        elif x < 72:
+            if w.inbox("B"):
+                return ["dOfail", r.below(3)]
         elif x < 83:
             if w.inbox("B") or r.chance(1, 12):
                 return ["dO"]
@@ -737,15 +841,15 @@ def final_phase(w, run_op, n, close_side, close_hook=None):
     # debugging aid that is overwritten by the next one; it is not counted as "the connection references the object"
     w.ca._last_traceback = w.cb._last_traceback = None
     for k in range(n):
-        if w.packs[k] in w.ca._local_objects._dict:
+        if w.packs[k] in lent_table(w.ca):
             w.err.append("object %d (%s) still in the owner's table after everything was dropped and delivered" % (k, w.kinds[k]))
         if w.alive_after_gc(k):
             w.err.append("object %d (%s) not collectable after everything was dropped and delivered" % (k, w.kinds[k]))
     run_op(["close", close_side] + ([close_hook] if close_hook else []))
     for name, conn in (("A", w.ca), ("B", w.cb)):
-        if conn._local_objects._dict or conn._proxy_cache._dict:
+        if lent_table(conn) or proxy_table(conn):
             w.err.append("after close, side %s still holds %d objects / %d proxies" % (
-                name, len(conn._local_objects._dict), len(conn._proxy_cache._dict)))
+                name, len(lent_table(conn)), len(proxy_table(conn))))
 
 
 HOOKS = [None, "ok", "raise", "eof"]
@@ -791,9 +895,9 @@ def run_history(ops, n=N_OBJS, gen=None, length=0, final=True, close_side="A", k
                 w.err.append("the closing phase could not be completed: %s" % type(ex).__name__.split(".")[-1])
         if w.closed:
             for name, conn in (("A", w.ca), ("B", w.cb)):
-                if conn._local_objects._dict or conn._proxy_cache._dict:
+                if lent_table(conn) or proxy_table(conn):
                     w.err.append("after the connection ended, side %s still holds %d objects / %d proxies" % (
-                        name, len(conn._local_objects._dict), len(conn._proxy_cache._dict)))
+                        name, len(lent_table(conn)), len(proxy_table(conn))))
         return done, snaps, list(dict.fromkeys(w.err))
     finally:
         w.teardown()
@@ -873,6 +977,12 @@ CORPUS = [
     [["send", [0]], ["sendFail", [0, [0, 1], "bad"]], ["dO"], ["fetchFail", ["bad", 0, 0]], ["dP"], ["dP"], ["expire", 0], ["dO"],
      ["drop", 0], ["dP"], ["sendFail", ["bad"]], ["fetchFail", ["bad"]], ["dP"], ["dO"], ["dO"]],
     [["sendFail", [1, 2, "deep"]], ["fetchFail", [0, "deep"]], ["dP"], ["dO"], ["send", [1]], ["dO"], ["drop", 1]],
+    # messages the receiver cannot unbox: failure at the first / a middle / the last reference, of a request and of a reply,
+    # with a proxy already held, with an expired waiter
+    [["send", [0, 1, 0]], ["dOfail", 0], ["dP"], ["dP"], ["dP"], ["dP"], ["dO"], ["dO"], ["dO"]],
+    [["send", [1]], ["dO"], ["send", [1, [2, 1], 0]], ["dOfail", 2], ["dP"], ["dP"], ["dP"], ["dP"], ["fetch", [2, [0, 2]]], ["dP"],
+     ["dOfail", 1], ["collect"], ["dP"], ["dP"], ["dP"], ["drop", 1], ["dP"], ["dOfail", 0], ["dOfail", 7]],
+    [["fetch", [0, 1]], ["fetch", 2], ["dP"], ["dP"], ["expire", 0], ["dOfail", 1], ["dOfail", 0], ["dP"], ["dP"], ["dP"], ["collect"]],
     # a reply for an expired result: unboxed, thrown away, its proxies die at once (nested, twice the same object)
     [["fetch", [0, [1, 0]]], ["dP"], ["expire", 0], ["dO"], ["dP"], ["dP"], ["dO"], ["dO"]],
     # expired while the reply is not even produced yet; a second, unexpired result behind it; a proxy held elsewhere
@@ -907,6 +1017,7 @@ def nontrivial(snaps):
     return False
 
 
+@infrastructure
 def correspondence(ctx):
     c = Corr()
     c.rule = ("histories over 3 lent objects on two real connections with manual delivery; what is lent rotates over palettes "
@@ -916,7 +1027,7 @@ def correspondence(ctx):
               "corpus (the crossing race both ways, multi-box, hand-back dropped in flight, result as only holder, "
               "disabled ops, close with traffic in flight), ALL histories of enabled ops up to a depth over a 1-object "
               "and a 2-object alphabet, and seeded random histories (length 8..40, shapes: alone, several, nested tuples, "
-              "mixed with plain values, empty; requests and replies that are boxed and then cannot be serialized — an int beyond the "
+              "mixed with plain values, empty; messages whose `_unbox` fails at the receiver after j references; requests and replies that are boxed and then cannot be serialized — an int beyond the "
               "digit limit, a tuple nested too deep, in front of / behind / between the references; AsyncResults expiring before their reply is delivered); each followed by the closing phase (use every held proxy, drop all, "
               "deliver all, close from either side). Compared after EVERY op: outcome, owner table counts, proxy counts, "
               "held set, ready results, decoded contents of both queues. Non-trivial = a proxy existed at some point; "
@@ -1045,7 +1156,7 @@ def extra_dynclass_baton():
             sink_p(Dyn, (list, Dyn), inst)
             sink_p(Dyn)
             for name, pk in packs.items():
-                if pk not in ca._local_objects._dict:
+                if pk not in lent_table(ca):
                     errs.append("a lent %s is not in the owner's table while the peer holds its proxy" % name)
             wr = weakref.ref(Dyn)
             del Dyn, inst, things
@@ -1056,7 +1167,7 @@ def extra_dynclass_baton():
             ping_p()
             ping_p()
             for name, pk in packs.items():
-                if pk in ca._local_objects._dict:
+                if pk in lent_table(ca):
                     errs.append("a %s is still in the owner's table after the peer dropped every proxy and all release "
                                 "notices were processed" % name)
             gc.collect()
@@ -1122,7 +1233,7 @@ def extra_release_overtakes():
                 errs.append("reply (fresh object, handed-back object) with the release notice right behind it raised %s"
                             % type(ex).__name__.split(".")[-1])
             ping_p()
-            if pack in ca._local_objects._dict:
+            if pack in lent_table(ca):
                 errs.append("after the reply scenario the owner's table still holds the object")
             wr = weakref.ref(t)
             del t
@@ -1170,7 +1281,7 @@ def extra_release_overtakes():
                     errs.append("%s with the release notice right behind it raised %s" % (what, type(ex).__name__.split(".")[-1]))
                 log.clear()
                 ping_p()
-                if pack2 in ca._local_objects._dict:
+                if pack2 in lent_table(ca):
                     errs.append("after the %s scenario the owner's table still holds the object" % what)
                 del t2
             # (3) reply with the handed-back object in a nested tuple behind the fresh one
@@ -1236,13 +1347,13 @@ def extra_same_object_during_inspect():
                     errs.append("the same remote object received %d times while its proxy is alive (the later messages "
                                 "dispatched during the first one's INSPECT round trip) arrived as %d different proxies"
                                 % (n, len(set(id(p) for p in got))))
-                elif object.__getattribute__(got[0], "____refcount__") != n:
-                    errs.append("one proxy received %d times counts %d references" % (
-                        n, object.__getattribute__(got[0], "____refcount__")))
+                elif refcount_of(got[0]) != n:
+                    errs.append("[implementation-tied] one proxy received %d times counts %d references" % (
+                        n, refcount_of(got[0])))
                 del got[:]
                 ping_p()
                 ping_p()
-                left = [v[1] for k, v in cb._local_objects._dict.items() if k[0].endswith("FreshTwice")]
+                left = [v[1] for k, v in lent_table(cb).items() if k[0].endswith("FreshTwice")]
                 if left:
                     errs.append("received %d times, one proxy, dropped, release delivered: the owner's table still holds the "
                                 "object (stored count %r)" % (n, left))
@@ -1313,7 +1424,7 @@ def extra_cache_hit_across_gc():
             for _ in range(8):
                 ca.poll()
                 cb.poll()
-            left = [v[1] for k, v in ca._local_objects._dict.items() if k[0] == "builtins.list"]
+            left = [v[1] for k, v in lent_table(ca).items() if k[0] == "builtins.list"]
             if left:
                 errs.append("after every proxy was collected and all notices delivered the owner's table still holds the "
                             "object (stored count %r)" % left)
@@ -1327,6 +1438,69 @@ def extra_cache_hit_across_gc():
                     c.close()
                 except Exception:  # noqa
                     pass
+    return errs
+
+
+class _Boom(object):
+    def __getattr__(self, name):
+        raise RuntimeError(name)
+
+
+def extra_unreceivable_message():
+    """references in a message the receiver cannot unbox: (1) a reply `(A(), B(), A())` where the class B cannot be
+    inspected (its HANDLE_INSPECT raises at the owner) — the caller gets the exception; (2) a package with a stale LOCAL_REF
+    in front of two fresh references.  Afterwards (a round trip later) the owner's table must hold none of the objects and
+    they must be collectable: nobody holds a proxy of them and nothing is in flight.  Baton mode, real INSPECT.  Real code only."""
+    import simnet
+    from rpyc.core import brine, consts
+    errs = []
+    net = simnet.Net()
+    with net.installed():
+        ca, cb = net.connect_pair(compress=False)
+        try:
+            A = type("UnrecvA", (object,), {})
+            B = type("UnrecvB", (object,), {"helper": _Boom()})
+            alive = []
+
+            def get():                    # runs at B
+                objs = (A(), B(), A())
+                alive.extend(weakref.ref(o) for o in objs)
+                return objs
+
+            def ping():
+                return None
+            get_p, ping_p = [ca._unbox(brine.load(brine.dump(cb._box(f)))) for f in (get, ping)]
+            try:
+                get_p()
+                errs.append("a reply holding an object whose class cannot be inspected was delivered")
+            except Exception:  # noqa  (the caller is told; that is fine)
+                pass
+            ping_p()
+            ping_p()
+            ca._last_traceback = cb._last_traceback = None
+            gc.collect()
+            left = sorted(k[0].split(".")[-1] for k in lent_table(cb) if "Unrecv" in k[0])
+            if left:
+                errs.append("objects of a reply the caller could not unbox stay in the owner's table: %s" % ", ".join(left))
+            elif any(w() is not None for w in alive):
+                errs.append("objects of a reply the caller could not unbox are not collectable at their owner")
+            objs = [[1], [2]]
+            package = (consts.LABEL_TUPLE, ((consts.LABEL_LOCAL_REF, ("no.Such", 1, 2)),) + tuple(ca._box(o) for o in objs))
+            try:
+                cb._unbox(brine.load(brine.dump(package)))
+                errs.append("a package with a stale LOCAL_REF was unboxed")
+            except KeyError:
+                pass
+            ping_p()
+            ping_p()
+            left = [k for k in lent_table(ca) if k[0] == "builtins.list"]
+            if left:
+                errs.append("the %d references of a package refused for a stale LOCAL_REF stay in the owner's table" % len(left))
+        except Exception as ex:  # noqa
+            errs.append("the unreceivable-message scenario raised %s: %s" % (type(ex).__name__.split(".")[-1], str(ex)[:100]))
+        finally:
+            get_p = ping_p = None
+            net.shutdown([ca])
     return errs
 
 
@@ -1361,7 +1535,7 @@ def extra_falsy_baton():
             def sink(x):
                 held.append(x)
                 first = held[0]
-                return (x is first, object.__getattribute__(x, "____refcount__"), len(held))
+                return (x is first, refcount_of(x), len(held))
 
             def drop():
                 del held[:]
@@ -1379,14 +1553,14 @@ def extra_falsy_baton():
                 if not same:
                     errs.append("%s received again while its proxy is alive is a different proxy" % name)
                 elif count != 2:
-                    errs.append("%s received twice: the proxy counts %d references" % (name, count))
-                slot = ca._local_objects._dict.get(pack)
+                    errs.append("[implementation-tied] %s received twice: the proxy counts %d references" % (name, count))
+                slot = lent_table(ca).get(pack)
                 if slot is None or slot[1] != 1:
-                    errs.append("%s lent twice: owner's slot is %r" % (name, None if slot is None else slot[1]))
+                    errs.append("[implementation-tied] %s lent twice: owner's slot is %r" % (name, None if slot is None else slot[1]))
                 drop_p()
                 ping_p()
                 ping_p()
-                if pack in ca._local_objects._dict:
+                if pack in lent_table(ca):
                     errs.append("%s is still in the owner's table after the peer let go of it" % name)
         except Exception as ex:  # noqa
             errs.append("the falsy-object scenario raised %s: %s" % (type(ex).__name__.split(".")[-1], str(ex)[:100]))
@@ -1410,7 +1584,7 @@ def _bounded_extra(name, fn):
 def extras():
     table = {"dynclass-baton": extra_dynclass_baton, "release-overtakes-reference": extra_release_overtakes,
              "falsy-objects-baton": extra_falsy_baton, "same-object-during-inspect": extra_same_object_during_inspect,
-             "cache-hit-across-gc": extra_cache_hit_across_gc}
+             "cache-hit-across-gc": extra_cache_hit_across_gc, "unreceivable-message": extra_unreceivable_message}
     return dict((name, _bounded_extra(name, fn)) for name, fn in table.items())
 
 
@@ -1427,7 +1601,7 @@ def oracle_history(ops, n=N_OBJS, close_side="A", kinds=None, ending=None):
         # a request the peer made through a live proxy must never be answered with an exception
         for o, s in zip(done, snaps):
             out = s.split(" ", 1)[0]
-            if out not in ("ok", "empty", "not-held", "closed", "disabled", "unsendable"):
+            if out not in ("ok", "empty", "not-held", "closed", "disabled", "unsendable", "unreceived"):
                 errs.append("op %s was answered with %s" % (op_text(o), out))
         return "; ".join(errs) if errs else None
     finally:
@@ -1466,6 +1640,7 @@ def ending_of(ops):
     return None
 
 
+@infrastructure
 def oracle_search(ctx, corr, broken):
     deadline = time.time() + ctx.budget(60, 600)
     r = Rng(ctx.seed).fork("c10-search")
@@ -1506,7 +1681,9 @@ def oracle_search(ctx, corr, broken):
                 if res:
                     return res
     for name, fn in sorted(extras().items()):
-        errs = fn()
+        # exact counts (`____refcount__` == receptions, slot == boxes - 1) are how THIS implementation keeps the books; the
+        # statement only asks for reachability while held and release afterwards: they do not make a violation by themselves
+        errs = [e for e in fn() if not e.startswith("[implementation-tied]")]
         if errs and ("c10:" + name) not in getattr(ctx, "known_signatures", set()):
             return dict(kind="extra", name=name), "; ".join(errs), "c10:" + name
     # 3. fresh histories
@@ -1527,6 +1704,7 @@ def oracle_search(ctx, corr, broken):
     return None
 
 
+@infrastructure
 def replay(case):
     if case.get("kind") == "extra":
         return dict(case=case, implementation=extras()[case["name"]]() or "holds")
